@@ -1289,4 +1289,45 @@ theorem shared_cache_unsound_witness :
     cases hb
 
 
+
+/-! ### leaf terms (ground constants) are terms like any other (the class of seeded defect C17_14)
+
+`innermost_interprets` / `partial_falls_through` quantify over every probe kind `k`, in particular over the kinds
+whose class is a LEAF of the term language (`n` = Number, `t` = Tensor without inputs, `tn` = Tensor with inputs).
+The harness's partial interpretation `K` has rules for exactly those; the instance below is the statement the
+correspondence family J checks against `reinterpret` / `recursion_reinterpret` / `stack_reinterpret`: a leaf rebuilt
+while K is innermost is answered by K (also through memoize / an adjoint tape layered on top), the other kinds fall
+through K to the enclosing context, and after K is left the leaf is answered by the enclosing context again. -/
+
+def exEnvK : Env :=
+  Env.ofTables ["eager_base", "normalize_base", "lazy_base", "P", "K"]
+    [("eager", ["eager_base", "normalize_base", "reflect"]), ("lazy", ["lazy_base", "reflect"])]
+    [("eager_base", ["num"]), ("normalize_base", ["num"]), ("P", ["a", "bin"]), ("K", ["n", "t", "tn"])]
+    ["P", "K"] ["num", "bin"] ["S"]
+
+/-- with K innermost (over lazy, over P, at top level): every leaf kind is answered by K; `a` falls through. -/
+theorem leaf_kinds_answered_by_innermost_K :
+    ([["K"], ["lazy", "K"], ["P", "K"], ["lazy", "P", "K"], ["K", "K"]].all fun names =>
+      match nestNamed exEnvK names exBase with
+      | .ok s => (s.getLast?.map fun t =>
+          (handler exEnvK "n" t, handler exEnvK "t" t, handler exEnvK "tn" t)) == some (some "K", some "K", some "K")
+      | _ => false) = true := by decide
+
+/-- … and a leaf kind falls through a partial interpretation without a rule for it (P) to K below it. -/
+theorem leaf_kinds_fall_through_to_K :
+    (match nestNamed exEnvK ["lazy", "K", "P"] exBase with
+      | .ok s => (s.getLast?.map fun t => (handler exEnvK "n" t, handler exEnvK "t" t, handler exEnvK "a" t))
+          == some (some "K", some "K", some "P")
+      | _ => false) = true := by decide
+
+set_option maxRecDepth 16384 in
+/-- the same through `exec`: rebuilt inside `with lazy: with K:` (also under memoize / a tape on top) the leaf is K's;
+    after the K block it is reflect's again; the stack is unwound. -/
+theorem leaf_probe_exec_innermost :
+    (let r := exec exEnvK (.withI (.named "lazy") (.seq (.withI (.named "K")
+          (.seq (.probe "n" false 1) (.seq (.withI .memoize (.probe "t" false 1)) (.withI .tape (.probe "n" false 2)))))
+          (.probe "n" false 1))) exSt
+     (handlersOf r).map Prod.fst == [some "K", some "K", some "K", some "reflect"]
+       && canonStack r.2.stack == "reflect,eager") = true := by decide
+
 end FV.Props.C17
